@@ -456,6 +456,15 @@ def c06 (a b : Bytes) (got : Option Bool) : Verdict :=
       else (if g then .viol "different-values-reported-equal" else .ok)
     | _, _ => if g then .viol "malformed-reported-equal" else .ok
 
+/-- C06, "reflexive on well-formed texts, symmetric": judged on EVERY pair, repeated member names included (which value
+such a text denotes is left open, that `Equal` is an equivalence is not).  `sym` = the answer to the swapped call,
+`refl` = the answer to `Equal(a, a)`. -/
+def c06rel (a : Bytes) (got sym refl : Option Bool) : Verdict :=
+  if got ≠ sym then .viol "not-symmetric"
+  else match parseValueOf a, refl with
+    | some _, some false => .viol "not-reflexive"
+    | _, _ => .ok
+
 /-! ### C11 -/
 
 /-- accessor results of one decoded operation, as the harness reports them -/
